@@ -119,6 +119,7 @@ type Exec struct {
 	ufSeen        map[string]bool
 	fresh         int
 	lockHeld map[*Cell]int
+	pools    map[*Cell][]Value // ghost contents of sync.Pool objects
 	ghost         map[string]Value
 	feasQ         int
 	bufInputs     []BufInput
